@@ -76,6 +76,10 @@ def run_spectral(c):
     what = "spectral_layout(%rx%r, trials=%d, seed=%d)" % (W, H, trials, c["seed"])
     try:
         rc = sp.spectral_layout(Shape(W, H), trials, False)
+        if c.get("again"):
+            # the placement is asked for again on the same object (another random start): everything below is about the final state
+            what += " followed by spectral_layout(trials=%d)" % max(1, trials)
+            rc = sp.spectral_layout(Shape(W, H), max(1, trials), False)
     except Exception as e:
         import traceback
         site = "?"
@@ -148,6 +152,8 @@ def run_spectral(c):
         cls.append("soft-module-with-a-provisional-rectangle")
     if any(m.get("pad") for m in c["modules"]):
         cls.append("movable-terminal-with-rectangles")
+    if c.get("again"):
+        cls.append("placed-twice-on-the-same-object")
     if max(W, H) >= 5 * min(W, H):
         cls.append("elongated-die")
     return dict(nt=big, cls=cls)
@@ -214,7 +220,7 @@ def design_s(draw):
             nets.append(dict(m=mem, w=draw(st.sampled_from(W_))))
     if trials == 0 and not general_position(mods, unit):
         trials = 1  # 'use the initial centres' needs centres that span the plane (not coincident / collinear)
-    return dict(unit=unit, W=W, H=H, modules=mods, nets=nets, trials=trials, seed=draw(_i(0, 2 ** 32 - 1)), tight=tight)
+    return dict(unit=unit, W=W, H=H, modules=mods, nets=nets, trials=trials, seed=draw(_i(0, 2 ** 32 - 1)), tight=tight, again=draw(_i(0, 3)) == 0)
 
 
 def general_position(mods, unit):
@@ -247,4 +253,4 @@ def general_position(mods, unit):
 
 def subchecks():
     return [Sub("placements", run_spectral, strategy=design_s(), n_quick=1400, n_thorough=40000, shrink_quick=True,
-                required=("trials=0", "trials=1", "trials=5", "hard-movable", "with-fixed", "tight-fit", "elongated-die", "fixed-pin-on-left-or-bottom-border", "soft-module-with-a-provisional-rectangle", "movable-terminal-with-rectangles"))]
+                required=("trials=0", "trials=1", "trials=5", "hard-movable", "with-fixed", "tight-fit", "elongated-die", "fixed-pin-on-left-or-bottom-border", "soft-module-with-a-provisional-rectangle", "movable-terminal-with-rectangles", "placed-twice-on-the-same-object"))]
